@@ -1,0 +1,50 @@
+//! Verification hook points.
+//!
+//! Compiled only with `--cfg sierra_db_sierradb_verif`; never part of a normal build.
+//! A test process may install a handler which is then called synchronously, on the
+//! calling thread, at every hook point (it may record the event, or block the thread to
+//! force a schedule). Without a handler a hook point costs one uncontended read lock.
+
+use std::sync::{Arc, RwLock};
+
+pub type Handler = Arc<dyn Fn(&'static str, &[(&'static str, u64)]) + Send + Sync>;
+pub type Query = Arc<dyn Fn(&'static str, u64) -> u64 + Send + Sync>;
+
+static HANDLER: RwLock<Option<Handler>> = RwLock::new(None);
+static QUERY: RwLock<Option<Query>> = RwLock::new(None);
+
+pub fn install(handler: Handler) {
+    *HANDLER.write().unwrap() = Some(handler);
+}
+
+pub fn install_query(query: Query) {
+    *QUERY.write().unwrap() = Some(query);
+}
+
+pub fn clear() {
+    *HANDLER.write().unwrap() = None;
+    *QUERY.write().unwrap() = None;
+}
+
+/// A named point in the code, with a few scalar fields describing the state just reached.
+pub fn point(name: &'static str, fields: &[(&'static str, u64)]) {
+    let handler = HANDLER.read().unwrap().clone();
+    if let Some(handler) = handler {
+        handler(name, fields);
+    }
+}
+
+/// A value the test process may override (e.g. a clock reading); `default` otherwise.
+pub fn query(name: &'static str, default: u64) -> u64 {
+    let query = QUERY.read().unwrap().clone();
+    match query {
+        Some(query) => query(name, default),
+        None => default,
+    }
+}
+
+/// Inode number of a file, used to identify segment files in recorded events.
+pub fn ino(file: &std::fs::File) -> u64 {
+    use std::os::unix::fs::MetadataExt;
+    file.metadata().map(|m| m.ino()).unwrap_or(0)
+}
